@@ -133,6 +133,40 @@ value is repeated (`numpy.array([value] * self.length)`). -/
 def functionExpand {γ : Type} (binding : γ → α) (configuration : γ) (length : Nat) : List α :=
   List.replicate length (binding configuration)
 
+/-! ### Families of function columns: several columns, one binding, a history of expansions -/
+
+/-- One expansion inside a history: the column's own binding, configuration and length at that moment
+(a new column object, or an earlier one whose attributes were reassigned: only the three values matter). -/
+structure FnUse (γ α : Type) where
+  binding : γ → α
+  configuration : γ
+  length : Nat
+
+/-- A history of expansions on the code as it stands: each one is the translated
+`FunctionColumn.materialize` (`Gen.Encodings.functionMaterialize`) run on that column's fields. -/
+def familyRun {γ : Type} (us : List (FnUse γ α)) : List (Option (List α)) :=
+  us.map fun u => Gen.Encodings.functionMaterialize u.binding u.configuration u.length
+
+/-- What the property demands of such a history: every expansion is that use's own
+`functionExpand` (the binding's value on *its* configuration, repeated to *its* length). -/
+def familyExpand {γ : Type} (us : List (FnUse γ α)) : List (List α) :=
+  us.map fun u => functionExpand u.binding u.configuration u.length
+
+/-- The class of change "remember the binding's value per configuration" (a module-level memo in
+front of the binding): the memo is consulted with a key comparison `keq`; on a hit the remembered
+value is used, otherwise the binding is called and the pair appended. -/
+def memoLookup {κ : Type} (keq : κ → κ → Bool) (memo : List (κ × α)) (k : κ) (compute : κ → α) : α × List (κ × α) :=
+  match memo.find? (fun e => keq e.1 k) with
+  | some e => (e.2, memo)
+  | none => (compute k, memo ++ [(k, compute k)])
+
+/-- A history of expansions of function columns over one shared binding, evaluated through such a memo
+(`(configuration, length)` per expansion). -/
+def memoFamily {γ : Type} (keq : γ → γ → Bool) (binding : γ → α) : List (γ × α) → List (γ × Nat) → List (List α)
+  | _, [] => []
+  | memo, (c, n) :: rest =>
+    List.replicate n (memoLookup keq memo c binding).1 :: memoFamily keq binding (memoLookup keq memo c binding).2 rest
+
 /-! ## numpy dtypes for the element kinds of the property -/
 
 /-- `bool < int < float` (numeric promotion), text of a width, `object` on top. -/
